@@ -17,7 +17,7 @@ def check(tier, seed, replay=None):
         cases = [{"id": c["id"], "prog": c["prog"], "unrolled": c["unrolled"], "expect": c.get("expect", "ok")}]
     else:
         cases = []
-        for fam in ("one", "enum", "graph", "prod", "logic", "sets", "scope", "mixed"):
+        for fam in ("one", "enum", "graph", "prod", "logic", "sets", "scope", "mixed", "alias"):
             cs, g, d = core.gen_cases(SPEC_DIR, "Expand.tla", f"Gen_{fam}.cfg", "exp" + fam, workers=4)
             for i, c in enumerate(cs):
                 c["id"] = f"{fam}_{i}"
